@@ -15,6 +15,17 @@
 (*     n = total: count it as finished and give its bar to the next chain not yet *)
 (*     shown (or drop the bar); exit iff finished >= N; otherwise sleep, repeat.  *)
 (* Fault: RCrash -- the receiving side disappears at any moment.                  *)
+(*                                                                              *)
+(* Execution resources.  ChainRunner::run_progress gives every chain a scoped OS  *)
+(* thread (Slots = 0: unbounded, every worker runs from the start); HMC and NUTS  *)
+(* put the chains on the ambient rayon pool, whose size the CALLER decides        *)
+(* (RAYON_NUM_THREADS, ThreadPool::install, a one-core container): Slots >= 1     *)
+(* executors, a chain job occupies one from its start (WStart) to its last        *)
+(* iteration -- rayon jobs run to completion.  The reporter has a thread of its   *)
+(* own and occupies none: that is what makes termination independent of the pool  *)
+(* size.  ReporterOnPool = TRUE is the deviation in which the reporter is itself  *)
+(* a pool job (rayon::join(report, chains)): it occupies an executor until it     *)
+(* exits, and it exits only after every chain has finished.                       *)
 EXTENDS Integers, Sequences, FiniteSets, ProgressBook
 
 CONSTANTS N,          \* number of chains
@@ -22,7 +33,9 @@ CONSTANTS N,          \* number of chains
           Total,      \* n_collect + n_discard  (>= 1)
           NDiscard,
           Crash,      \* BOOLEAN: may the receiver vanish?
-          ReporterBug \* "none"; "no_recycle" = negative control: bars of finished chains are dropped, never recycled
+          ReporterBug,\* "none"; "no_recycle" = negative control: bars of finished chains are dropped, never recycled
+          Slots,      \* executors available to chain workers; 0 = one thread per chain
+          ReporterOnPool \* BOOLEAN: negative control -- the reporter occupies an executor while it runs
 Chains == 1..N
 VARIABLES wi,        \* wi[c]: loop iterations worker c has completed (0..Total)
           chan,      \* chan[c]: FIFO of message values n
@@ -33,8 +46,9 @@ VARIABLES wi,        \* wi[c]: loop iterations worker c has completed (0..Total)
           nFinished,
           rpc,       \* "drain" | "book" | "exit" | "dead"
           rk,        \* channel the reporter drains next
-          out        \* out[c]: what worker c stored (transition counts)
-vars == <<wi, chan, rxAlive, recent, active, nextActive, nFinished, rpc, rk, out>>
+          out,       \* out[c]: what worker c stored (transition counts)
+          started    \* chains whose job has been picked up by an executor
+vars == <<wi, chan, rxAlive, recent, active, nextActive, nFinished, rpc, rk, out, started>>
 
 Min(a, b) == IF a < b THEN a ELSE b
 Init ==
@@ -43,22 +57,31 @@ Init ==
   /\ active = [j \in 1..Min(N, MaxBars) |-> j] /\ nextActive = Min(N, MaxBars) + 1
   /\ nFinished = 0 /\ rpc = "drain" /\ rk = 1
   /\ out = [c \in Chains |-> <<>>]
+  /\ started = IF Slots = 0 THEN Chains ELSE {}
+
+\* executors in use: chain jobs that have started and not finished, plus the reporter if it is a pool job
+Busy == Cardinality({c \in started : wi[c] < Total}) + (IF ReporterOnPool /\ rpc \notin {"exit", "dead"} THEN 1 ELSE 0)
+WStart(c) ==
+  /\ c \notin started /\ Busy < Slots
+  /\ started' = started \cup {c}
+  /\ UNCHANGED <<wi, chan, rxAlive, recent, active, nextActive, nFinished, rpc, rk, out>>
 
 WStep(c, periodic) ==
+  /\ c \in started
   /\ wi[c] < Total
   /\ LET i == wi[c]                       \* loop index of this iteration
          sends == periodic \/ i = Total - 1
      IN /\ chan' = IF sends /\ rxAlive THEN [chan EXCEPT ![c] = Append(chan[c], i + 1)] ELSE chan
         /\ out' = IF i >= NDiscard THEN [out EXCEPT ![c] = Append(out[c], i + 1)] ELSE out
   /\ wi' = [wi EXCEPT ![c] = wi[c] + 1]
-  /\ UNCHANGED <<rxAlive, recent, active, nextActive, nFinished, rpc, rk>>
+  /\ UNCHANGED <<rxAlive, recent, active, nextActive, nFinished, rpc, rk, started>>
 
 RDrain ==
   /\ rpc = "drain" /\ rxAlive
   /\ recent' = IF chan[rk] # <<>> THEN [recent EXCEPT ![rk] = chan[rk][Len(chan[rk])]] ELSE recent
   /\ chan' = [chan EXCEPT ![rk] = <<>>]
   /\ IF rk = N THEN rpc' = "book" /\ rk' = 1 ELSE rpc' = rpc /\ rk' = rk + 1
-  /\ UNCHANGED <<wi, rxAlive, active, nextActive, nFinished, out>>
+  /\ UNCHANGED <<wi, rxAlive, active, nextActive, nFinished, out, started>>
 
 Book(act, nxt, fin, rec) == BookFn(act, nxt, fin, rec, N, Total, ReporterBug # "no_recycle")
 
@@ -67,15 +90,17 @@ RBook ==
   /\ LET b == Book(active, nextActive, nFinished, recent) IN
      /\ active' = b.active /\ nextActive' = b.next /\ nFinished' = b.fin
      /\ rpc' = IF b.fin >= N THEN "exit" ELSE "drain"
-  /\ UNCHANGED <<wi, chan, rxAlive, recent, rk, out>>
+  /\ UNCHANGED <<wi, chan, rxAlive, recent, rk, out, started>>
 
 RCrash ==
   /\ Crash /\ rxAlive /\ rpc \in {"drain", "book"}
   /\ rxAlive' = FALSE /\ rpc' = "dead"
-  /\ UNCHANGED <<wi, chan, recent, active, nextActive, nFinished, rk, out>>
+  /\ UNCHANGED <<wi, chan, recent, active, nextActive, nFinished, rk, out, started>>
 
-Next == (\E c \in Chains, p \in BOOLEAN : WStep(c, p)) \/ RDrain \/ RBook \/ RCrash
+Next == (\E c \in Chains, p \in BOOLEAN : WStep(c, p)) \/ (\E c \in Chains : WStart(c)) \/ RDrain \/ RBook \/ RCrash
+\* an idle executor picks up SOME waiting chain job (which one is the pool's business): weak fairness on the disjunction
 Fairness == /\ \A c \in Chains : WF_vars(\E p \in BOOLEAN : WStep(c, p))
+            /\ WF_vars(\E c \in Chains : WStart(c))
             /\ WF_vars(RDrain) /\ WF_vars(RBook)
 Spec == Init /\ [][Next]_vars /\ Fairness
 
@@ -104,5 +129,7 @@ BookAsSets ==
     IN /\ {b.active[j] : j \in 1..Len(b.active)} = (shownSet \ fin) \cup {c \in Chains : nextActive <= c /\ c < nextActive + take}
        /\ b.next = nextActive + take
        /\ b.fin = nFinished + k
+\* the pool is never over-committed, and a job that was never picked up has done nothing
+PoolRespected == (Slots > 0 => Busy <= Slots) /\ \A c \in Chains : c \notin started => wi[c] = 0
 BarsBounded == Len(active) <= MaxBars /\ \A j, k \in 1..Len(active) : j # k => active[j] # active[k]
 =============================================================================
